@@ -1,6 +1,6 @@
 (** Vocabulary of the C11 / C08 statements: slices, block counts, the payload of an operation,
     what "in bounds", "merged", "only a leading empty data op" mean.  Definitions only. *)
-From Wharf Require Import Base.Prelude Wsync.Diff Wsync.Apply Wsync.Library Wsync.Sign.
+From Wharf Require Import Base.Prelude Wsync.Diff Wsync.Apply Wsync.Library Wsync.Sign Wsync.Account.
 Local Open Scope N_scope.
 
 (** [n] elements of [l] from offset [a] (fewer when [l] ends before) *)
@@ -61,3 +61,14 @@ Definition diff_ops {H} (shash : list N -> H) (heqb : H -> H -> bool) (bs maxDat
            (olds : list (list N)) (src : list N) (pref : option N) : option (list op) :=
   compute_diff bs maxData (get_of src) (len src)
     (lookup_in heqb (sign_all shash bs 0 olds) pref (fun a l => shash (sub src a l))).
+
+(** what pwr's operation writer sees of an operation, and the file sizes of the old container *)
+Definition aop_of (o : op) : aop :=
+  match o with
+  | OpRange f i sp => AR f i sp
+  | OpData _ l => AD l
+  end.
+
+Definition sizes_of (olds : list (list N)) : list Z := map (fun o => Z.of_nat (length o)) olds.
+
+Definition is_range_op (o : op) : Prop := match o with OpRange _ _ _ => True | OpData _ _ => False end.
